@@ -167,7 +167,8 @@ func runGroup(r *mux.Router, st *Step) StepObs {
 //
 // sharedPattern: N pushes arrive while the INSERT of a first push (a series of its own) is waiting; Layout says which new
 // series they announce (0: all the same one; 1: a chain, neighbours have one series in common; 2: the first announces two,
-// the others one of them each, and the push whose INSERT is waiting announces one of them too); the INSERT of the first push
+// the others one of them each, and the push whose INSERT is waiting announces one of them too; 3: all the same series, every
+// push on another day or with another sample type: same fingerprint, different rows); the INSERT of the first push
 // and the shared INSERT get the outcomes TsOK0 / TsOK. Enumerated: a change that answers a request from something else than
 // the outcome of the INSERT that carries (or should carry) its rows shows where the two differ.
 type sharedPattern struct {
@@ -180,7 +181,7 @@ type sharedPattern struct {
 func sharedPatterns() []sharedPattern {
 	var ps []sharedPattern
 	for n := 2; n <= 3; n++ {
-		for l := 0; l < 3; l++ {
+		for l := 0; l < 4; l++ {
 			for _, a0 := range []bool{true, false} {
 				for _, a := range []bool{false, true} {
 					ps = append(ps, sharedPattern{N: n, Layout: l, TsOK0: a0, TsOK: a})
@@ -203,10 +204,16 @@ func genSharedHist(r *rand.Rand, id int, p sharedPattern) HCase {
 	}
 	// a stream of the series with 1..2 entries of the history's day and type (so that the rows of two pushes coincide);
 	// sometimes one more entry of the next day or of another type (a row the other pushes do not have)
+	shift := 0 // layout 3: the day / type of the next stream made
 	stream := func(s series) Stream {
 		out := Stream{Labels: s.labels}
+		d, t := day, tp
+		if p.Layout == 3 {
+			d, t = day+int64(shift%2), []int{tp, tp, (tp + 1) % 3, (tp + 2) % 3}[shift%4]
+			shift++
+		}
 		for i, k := 0, 1+r.Intn(2); i < k; i++ {
-			out.Entries = append(out.Entries, Entry{Ts: (day*86400+int64(r.Intn(86400)))*1000000000 + int64(r.Intn(1000)), T: tp})
+			out.Entries = append(out.Entries, Entry{Ts: (d*86400+int64(r.Intn(86400)))*1000000000 + int64(r.Intn(1000)), T: t})
 		}
 		if r.Intn(5) == 0 {
 			out.Entries = append(out.Entries, Entry{Ts: ((day+1)*86400 + int64(r.Intn(86400))) * 1000000000, T: r.Intn(3)})
@@ -216,7 +223,7 @@ func genSharedHist(r *rand.Rand, id int, p sharedPattern) HCase {
 	own := fresh()
 	var members [][]series
 	switch p.Layout {
-	case 0:
+	case 0, 3:
 		s := fresh()
 		for i := 0; i < p.N; i++ {
 			members = append(members, []series{s})
